@@ -53,6 +53,7 @@ _SAFE_BUILTINS = {
     "dict": dict,
     "round": round,
     "print": lambda *a, **k: None,
+    "object": object,
     "map": map,
     "filter": filter,
     "divmod": divmod,
@@ -133,6 +134,8 @@ class MiniEval:
                 return getattr(obj, n.attr)
         if obj is None:
             raise ModelRaise("AttributeError", f"'NoneType' object has no attribute '{n.attr}'")
+        if obj in (dict, set, frozenset, str, list, tuple, int) and n.attr in ("fromkeys", "union", "intersection", "join", "maketrans", "from_bytes", "difference") and hasattr(obj, n.attr):
+            return getattr(obj, n.attr)
         raise Unsupported(f"attribute {n.attr} on {type(obj).__name__}")
 
     def ev_Call(self, n):
@@ -574,6 +577,11 @@ class BlockInterp:
             if self.me.ev(st.test):
                 return self.run(st.body)
             return self.run(st.orelse)
+        if isinstance(st, ast.Expr) and isinstance(st.value, ast.YieldFrom):
+            if not hasattr(self, "yielded"):
+                raise Unsupported("yield from outside a generator closure")
+            self.yielded.extend(list(self.me.ev(st.value.value)))
+            return "next"
         if isinstance(st, ast.Expr) and isinstance(st.value, ast.Yield):
             if not hasattr(self, "yielded"):
                 raise Unsupported("yield outside a generator closure")
@@ -709,8 +717,15 @@ class BlockInterp:
                 self.on_raise(st, kind)
             return ("raise", kind)
         if isinstance(st, ast.For):
-            it = list(self.me.ev(st.iter))
+            src = self.me.ev(st.iter)
+            # iterate lazily (itertools.count() ...) but over a snapshot of sized containers (mutation during iteration
+            # of a list/set/dict would be an error in CPython for set/dict; the package never relies on it)
+            it = list(src) if isinstance(src, (list, tuple, set, frozenset, dict, str)) else iter(src)
+            n_iter = 0
             for x in it:
+                n_iter += 1
+                if n_iter > 100000:
+                    raise ModelRaise("NonTermination", "for loop exceeds 100000 iterations on a small model")
                 self.me._bind(st.target, x)
                 r = self.run(st.body)
                 if r == "break":
